@@ -1120,6 +1120,17 @@ class C07(E2Prop):
             out.append(gen_hs.hs_case('mq%d' % i, rng.choice(gen_hs.CALLBACKS), ['r'], gen_hs.rds_of(gen_hs.segment(rng, m_, rng.choice([1, 1, 3]))), [], []))
             m2 = gen_hs.mutate_head(rng, good_resp)
             out.append(gen_hs.hc_case('mr%d' % i, b'ws://example.com/', ops=['r'], rds=gen_hs.rds_of(gen_hs.segment(rng, m2, rng.choice([1, 1, 3])))))
+        # a bound too small for the automatic reply (the property's "any configuration"): the reply can never be queued, and read()
+        # must keep answering (WouldBlock / messages), not spin re-flushing
+        for role in 'sc':
+            for mx in (1, 2, 8, 16):
+                for n_ in (0, 15, 60, 125):
+                    pf_ = gen_e2.peer_frame(role, 9, b'p' * n_)
+                    tf_ = gen_e2.peer_frame(role, 1, b'ok')
+                    for wr in ([], ['a:100000'] * 6, ['e:wb'] * 3):
+                        out.append(ws.scase_line('tiny%d' % len(out), role, ['r', 'r', 'r', 'f', 'r'], ['d:' + ws.hx(pf_ + tf_)], wr, [], wbs=0, max_=mx))
+                    cf_ = gen_e2.peer_frame(role, 8, gen_e2.close_payload(1000, b'r' * min(n_, 123)))
+                    out.append(ws.scase_line('tiny%d' % len(out), role, ['r', 'r', 'r', 'f'], ['d:' + ws.hx(cf_)], ['a:100000'] * 6, [], wbs=0, max_=mx))
         # one message in thousands of one-byte fragments, all available to a single read(): stack use must not grow with the input
         for role in 'sc':
             nfr = 40000
